@@ -9,6 +9,7 @@ import (
 	"os"
 	"path/filepath"
 	"runtime"
+	"sort"
 	"strings"
 	"sync"
 	"testing"
@@ -347,6 +348,45 @@ var checkVarsShared = register("c19.vars", func(c VarsCase) *Violation {
 	return nil
 })
 
+// RepeatCase: the same call repeated on the same inputs returns the same items (order of object
+// members aside) and the same error - also when the outcome hinges on which member of an object
+// a wildcard meets first (lax mode stops at the first item found or the first error met).
+type RepeatCase struct {
+	Path   string `json:"path"`
+	Doc    string `json:"doc"`
+	Rounds int    `json:"rounds"`
+}
+
+var checkRepeat = register("c19.repeat", func(c RepeatCase) *Violation {
+	p, err := path.Parse(c.Path)
+	if err != nil {
+		return nil
+	}
+	doc, derr := Decode(c.Doc, false)
+	if derr != nil {
+		return nil
+	}
+	outcome := func(silent bool) string {
+		o := Opts{TZ: true, Silent: silent}
+		opt := o.Options(nil)
+		q := RunQuery(o.Ctx(), p, doc, opt...)
+		e := RunExists(o.Ctx(), p, doc, opt...)
+		f := RunFirst(o.Ctx(), p, doc, opt...)
+		items := RenderSeq(q.Items, true)
+		sort.Strings(items) // the order of object members aside
+		return fmt.Sprintf("Query: %s%s %v | Exists: %s%s %v | First: %s%s", q.Class, q.Panic, items, e.Class, e.Panic, e.Bool, f.Class, f.Panic)
+	}
+	for _, silent := range []bool{false, true} {
+		first := outcome(silent)
+		for i := 1; i < c.Rounds; i++ {
+			if again := outcome(silent); again != first {
+				return violf("repeating %q on %s (silent=%v) gives different outcomes on the same inputs: %s, then (call %d) %s", c.Path, c.Doc, silent, first, i+1, again)
+			}
+		}
+	}
+	return nil
+})
+
 // StormCase: many goroutines, each in its own named context zone, repeat a few
 // datetime casts whose result depends on the zone; every call must return what
 // it returns alone. (State shared between calls in different zones - a cache of
@@ -418,6 +458,28 @@ var checkStorm = register("c19.zone_storm", func(c StormCase) *Violation {
 func TestC19(t *testing.T) {
 	ev := newEv(t, "C19")
 	ev.replayTier(t)
+	t.Run("repeat_on_multi_member_objects", func(t *testing.T) {
+		b := ev.enum(t)
+		paths := []string{`exists($.*.double())`, `$.*.double()`, `$ ? (exists(@.*.double()))`, `$.*.datetime()`, `$.** ? (@.integer() > 0)`, `$.*.a`, `strict $.*.a`, `$.* > 1`, `strict $.* > 1`, `$.*.abs()`, `$.**.size()`,
+			`$.* starts with "x"`, `$.**{1 to last}.double()`, `$.*[0]`, `strict $.*[0]`, `($.* == 1) is unknown`, `$.*.keyvalue().key`, `$.* ? (@.type() == "string").integer()`, `$.*.string().number()`}
+		docs := []string{`{"a":1,"b":"x"}`, `{"b":"x","a":1,"c":[1],"d":{"a":2}}`, `{"k1":"2015-08-01","k2":1,"k3":"12:00:00","k4":null}`, `{"a":{"a":1,"b":"x"},"b":{"a":"x","b":1}}`, `[{"a":1,"b":"x"},{"a":"x","b":1}]`, `{"x":"xa","y":1,"z":["xb"]}`}
+		i := 0
+		for _, p := range paths {
+			for _, d := range docs {
+				i++
+				if !mine(i) {
+					continue
+				}
+				c := RepeatCase{Path: p, Doc: d, Rounds: 40}
+				ev.Eval("repeat"+p+d, true)
+				ev.Sample("repeat", c)
+				if !b.Check("c19.repeat", c, checkRepeat(c)) {
+					return
+				}
+			}
+		}
+		ev.Exhaustive("order_sensitive_paths_by_multi_member_documents_x40", int64(i))
+	})
 	t.Run("zone_storm", func(t *testing.T) {
 		b := ev.enum(t)
 		rounds := 1500
